@@ -3,7 +3,7 @@ C16 (broken pipe wrapper), plus the flush-layer rule R12.3 shared with C12/C15."
 import re
 
 from engine import rule, AnchorLost
-from model import Super, PathSens, fn_of, trace, strace, is_place, site, const_value
+from model import Super, PathSens, strace, carriers, switches_on_carriers, fn_of, trace, is_place, site, const_value
 import common
 import tables
 
@@ -168,87 +168,6 @@ def main_calls(facts):
 # --------------------------------------------------------------------------- C15
 
 
-@rule("R15.1", 5, "every path from a successful translate_* to the back edge / return / exit passes through Translator::flush; failures exit 1", ["C15", "C13", "C16"])
-def r15_1(ctx):
-    m, d = main_calls(ctx.facts)
-    ctx.need(d["translate"], "main has no xt::Translator::translate_* call")
-    flush_blocks = [bb for bb, _ in d["flush"]]
-    back_src = {u for u, v in m.back_edges()}
-    rets = set(m.return_blocks())
-    exits = {bb for bb, _ in exit_calls(m)}
-    for bb, t in d["translate"]:
-        name = fn_of(t)["name"]
-        key = f"{name}@{_variant_key(m, bb)}"
-        dest = t["dest"]["l"]
-        sw = result_switches(m, dest)
-        ctx.ob(f"{key}:result-inspected", bool(sw), site(m, bb), "the translation result is matched on" if sw else "the translation result is never inspected")
-        err_edges = []
-        for sbb, errs, oks in sw:
-            for e in errs:
-                err_edges.append((sbb, e))
-        # from the call's return, with the Err edges removed and flush blocks removed, no target may be reachable
-        targets = back_src | rets | exits
-        start = t["target"]
-        r = m.reachable_from(start, removed_nodes=flush_blocks, removed_edges=err_edges)
-        leak = sorted(r & targets)
-        ctx.ob(f"{key}:flush-before-next", not leak, site(m, bb),
-               "flush intervenes on every success path" if not leak else
-               f"a success path reaches {_describe(m, leak[0], back_src, rets, exits)} (line {m.blocks[leak[0]]['term']['line']}) without Translator::flush")
-        # Err edges only reach exit(1)
-        for sbb, e in err_edges:
-            terms = terminal_blocks(m, [e])
-            bad = [x for x in terms if not is_exit_block(m, x, 1)]
-            loops = [x for x in m.reachable_from(e) if x in back_src]
-            ok = not bad and not loops and terms
-            ctx.ob(f"{key}:failure-exits-1", ok, site(m, sbb),
-                   "failure arm diverges to exit(1)" if ok else "failure arm can continue with the next input or return from main")
-    ctx.ob("flush-site-present", len(flush_blocks) >= 1, site(m), f"{len(flush_blocks)} Translator::flush call(s) in main")
-    for bb, t in d["flush"]:
-        sw = result_switches(m, t["dest"]["l"])
-        ctx.ob("flush:result-inspected", bool(sw), site(m, bb), "flush result is matched on" if sw else "the result of Translator::flush is discarded")
-        for sbb, errs, oks in sw:
-            for e in errs:
-                terms = terminal_blocks(m, [e])
-                bad = [x for x in terms if not is_exit_block(m, x, 1)]
-                loops = [x for x in m.reachable_from(e) if x in back_src]
-                ok = not bad and not loops and terms
-                ctx.ob("flush:failure-exits-1", ok, site(m, sbb), "flush failure diverges to exit(1)" if ok else "flush failure does not end the run with status 1")
-                wr = _stderr_xt_error_blocks(ctx.facts, m)
-                ok2 = all(m.must_pass(e, [x], wr) for x in terms)
-                ctx.ob("flush:failure-reported", ok2, site(m, sbb), "an 'xt error' line is written to stderr before exiting" if ok2 else "flush failure exits without an 'xt error' message")
-
-
-def _variant_key(m, bb):
-    """Stable key for a call site in main: the input variant it handles (from the argument types)."""
-    t = m.blocks[bb]["term"]
-    f = fn_of(t)
-    a = [x for x in f["args"] if x not in ("'_",)]
-    tail = a[-1] if a else ""
-    tail = re.sub(r"<.*", "", tail).rsplit("::", 1)[-1]
-    if f["name"] == "translate_slice":
-        return "slice"
-    return tail or "reader"
-
-
-def _describe(m, bb, back_src, rets, exits):
-    if bb in back_src:
-        return "the loop back edge (next input)"
-    if bb in rets:
-        return "main's return"
-    return "a process::exit"
-
-
-def _stderr_xt_error_blocks(facts, m):
-    out = []
-    for n, st, tmpl, dts in writes_in(facts.bin, m, depth=0):
-        if st == "stderr" and tmpl and tmpl.startswith("xt error"):
-            out.append(n[1])
-    return out
-
-
-# --------------------------------------------------------------------------- R12.3 flush layers
-
-
 def _returns_call(body, pred):
     """Every definition of the return place is a call satisfying pred; returns (ok, detail)."""
     ds = body.whole_defs(0)
@@ -318,10 +237,13 @@ def r12_3(ctx):
 
 def wrapper_impl(facts):
     """The io::Write impl of the type wrapped around stdout and handed to Translator::new."""
-    m, d = main_calls(facts)
-    if not d["new"]:
-        raise AnchorLost("main does not construct an xt::Translator")
-    f = fn_of(d["new"][0][1])
+    import cliview
+
+    v = cliview.view(facts)
+    m = v.main
+    if not v.new:
+        raise AnchorLost("no xt::Translator construction reachable from main")
+    f = fn_of(v.new[0][2])
     wty = f["args"][0] if f["args"] else ""
     imps = [i for i in facts.bin.impls if i.get("trait") == "std::io::Write" and i.get("self_adt")]
     used = [i for i in imps if i["self_adt"] in wty]
@@ -401,878 +323,109 @@ def _check_fn(ctx):
 def r16_2(ctx):
     binc = ctx.bin
     for c in _check_fn(ctx):
-        # the BrokenPipe comparison
-        cmp_blocks = []
-        for bb, t in c.calls():
+        sup = Super(binc, c, depth=3)
+        ps = PathSens(sup)
+        calls = sup.calls()
+        # the BrokenPipe comparison, wherever the check keeps it (inline or in a helper predicate)
+        cmps = []
+        for n, b, t in calls:
             f = fn_of(t) or {}
-            if f.get("trait") == "std::cmp::PartialEq" and "ErrorKind" in f.get("self_ty", ""):
-                consts = [a for a in t["args"] if trace(c, a).origin and trace(c, a).origin[0] == "const"]
-                variants = [trace(c, a).origin[1].get("ref_variant") or trace(c, a).origin[1].get("variant") for a in consts]
-                cmp_blocks.append((bb, t, variants))
-        ok = len(cmp_blocks) == 1 and cmp_blocks[0][2] == ["BrokenPipe"]
-        ctx.ob("kind-compared-with-BrokenPipe", ok, site(c), f"ErrorKind comparisons: {[v for _, _, v in cmp_blocks]}")
+            if f.get("trait") == "std::cmp::PartialEq" and "ErrorKind" in f.get("self_ty", "") and f.get("name") in ("eq", "ne"):
+                variants, others = [], []
+                for a in t["args"]:
+                    tr = strace(sup, n, a)
+                    if tr.origin and tr.origin[0] == "const":
+                        variants.append(tr.origin[1].get("ref_variant") or tr.origin[1].get("variant"))
+                    else:
+                        others.append(tr)
+                cmps.append((n, b, t, variants, others))
+        ok = len(cmps) == 1 and cmps[0][3] == ["BrokenPipe"] and len(cmps[0][4]) == 1
+        ctx.ob("kind-compared-with-BrokenPipe", ok, site(c), f"ErrorKind comparisons: {[x[3] for x in cmps]}")
         if not ok:
             continue
-        bb, t, _ = cmp_blocks[0]
-        # kind() of the Err payload of the argument
-        ktr = trace(c, t["args"][0])
+        n, b, t, _, others = cmps[0]
+        ktr = others[0]
         kcall = ktr.origin[2] if ktr.origin and ktr.origin[0] == "call" else None
         kf = fn_of(kcall) if kcall else None
         kind_ok = bool(kf and kf["def"] == "std::io::Error::kind")
         if kind_ok:
-            ptr = trace(c, kcall["args"][0])
-            kind_ok = bool(ptr.origin and ptr.origin[0] == "arg" and ptr.origin[1] == 1 and any(s[0] == "downcast" and s[1] == "Err" for s in ptr.steps))
-        ctx.ob("kind-of-the-argument-error", kind_ok, site(c, bb), "compares kind() of the Err payload of the checked result")
-        sw = c.blocks[t["target"]]["term"]
-        true_t = sw["otherwise"] if sw["k"] == "switch" else None
-        false_t = [x for v, x in sw["targets"] if v == 0] if sw["k"] == "switch" else []
-        # true edge: only a diverging local call
-        div_ok = False
-        dfn = None
-        if true_t is not None:
-            terms = terminal_blocks(c, [true_t])
-            div_ok = bool(terms)
-            for x in terms:
-                tt = c.blocks[x]["term"]
-                f = fn_of(tt) if tt["k"] == "call" else None
-                if not (f and f.get("diverges") and f.get("local")):
-                    div_ok = False
-                else:
-                    dfn = binc.by_id.get(f.get("resolved") or f["def"])
-        ctx.ob("broken-pipe-edge-diverges", div_ok, site(c, t["target"]),
-               "the BrokenPipe edge reaches only a call of a `-> !` function" if div_ok else "the BrokenPipe edge can return to the caller (would surface as an error message or exit 0)")
-        # other edges return the argument unchanged
-        rets_ok = True
-        for rb in c.return_blocks():
-            pass
+            knode = (ktr.origin_node[0], ktr.origin[1])
+            ptr = strace(sup, knode, kcall["args"][0])
+            kind_ok = bool(ptr.origin and ptr.origin[0] == "arg" and ptr.origin[1] == 1 and not ptr.origin_node[0] and any(s[0] == "downcast" and s[1] == "Err" for s in ptr.steps))
+        ctx.ob("kind-of-the-argument-error", kind_ok, sup.site(n), "compares kind() of the Err payload of the checked result" if kind_ok else "the compared kind is not that of the checked result's error")
+        # the edge taken when the comparison holds
+        carr = carriers(sup, n, t["dest"]["l"])
+        sws = [(sn, st) for sn, st, how in switches_on_carriers(sup, carr) if how == "value"]
+        ctx.ob("comparison-branched-on", len(sws) == 1, sup.site(n), f"{len(sws)} branch(es) on the comparison result")
+        if len(sws) != 1:
+            continue
+        sn, sw = sws[0]
+        zero = [x for v_, x in sw["targets"] if v_ == 0]
+        holds_is_otherwise = fn_of(t)["name"] == "eq"
+        if holds_is_otherwise:
+            edge = (sn, "otherwise", (sn[0], sw["otherwise"]))
+        else:
+            edge = (sn, 0, (sn[0], zero[0])) if zero else None
+        entry_states = ps.explore([(sup.entry, {})])
+
+        def reach_edge(e, removed=()):
+            sts = []
+            for f_ in entry_states.get(e[0], []):
+                for lab, m, f2 in ps.step(e[0], f_):
+                    if m == e[2] and lab == e[1]:
+                        sts.append((m, f2))
+            return set(ps.explore(sts, removed).keys()) if sts else set()
+
+        r = reach_edge(edge) if edge else set()
+        ends = [x for x in r if not sup.edges(x) and sup.body_of(x).blocks[x[1]]["term"]["k"] != "unreachable"]
+        returns = [x for x in ends if not x[0] and c.blocks[x[1]]["term"]["k"] == "return"]
+        div_ok = bool(ends) and not returns
+        ctx.ob("broken-pipe-edge-diverges", div_ok, sup.site(sn),
+               "the BrokenPipe edge never returns to the caller" if div_ok else "the BrokenPipe edge can return to the caller (would surface as an error message or exit 0)")
+        # the other edge(s) return the argument unchanged
+        rets_ok = bool(c.whole_defs(0))
         for dbb, idx, kind, payload in c.whole_defs(0):
             if kind != "assign":
                 rets_ok = False
                 continue
             tr0 = trace(c, payload["rv"]["op"]) if payload["rv"]["k"] == "use" else None
-            if not (tr0 and tr0.origin and tr0.origin[0] == "arg" and tr0.origin[1] == 1 and all(s[0] == "use" for s in tr0.steps)):
+            if not (tr0 and tr0.origin and tr0.origin[0] == "arg" and tr0.origin[1] == 1 and all(s_[0] == "use" for s_ in tr0.steps)):
                 rets_ok = False
-        ctx.ob("other-edges-return-argument", rets_ok and bool(c.whole_defs(0)), site(c), "every returning path yields the argument unchanged" if rets_ok else "a returning path alters the checked result")
-        # silent: no stderr / formatting in check or diverging fn
-        for fnb in [c] + ([dfn] if dfn else []):
+        ctx.ob("other-edges-return-argument", rets_ok, site(c), "every returning path yields the argument unchanged" if rets_ok else "a returning path alters the checked result")
+        # silent, panic-free: every body the check can enter
+        bodies = []
+        for x in sorted(sup.nodes(), key=str):
+            bx = sup.body_of(x)
+            if bx not in bodies:
+                bodies.append(bx)
+        for fnb in bodies:
             noisy = [fn_of(t2)["def"] for _, t2 in fnb.calls() if fn_of(t2) and (fn_of(t2)["def"] in ("std::io::stderr", "std::io::stdout", "std::io::_eprint", "std::io::_print") or "fmt::Arguments" in fn_of(t2)["def"])]
-            ctx.ob(f"silent:{fnb.name}", not noisy, site(fnb), "no message is formatted or written" if not noisy else f"writes/prints: {noisy}")
+            ctx.ob(f"silent:{'check' if fnb is c else fnb.name}", not noisy, site(fnb), "no message is formatted or written" if not noisy else f"writes/prints: {noisy}")
             panics = [b2 for b2 in fnb.reach() if fnb.blocks[b2]["term"]["k"] == "assert"]
             pan_calls = [fn_of(t2)["def"] for _, t2 in fnb.calls() if fn_of(t2) and ("panic" in fn_of(t2)["def"] or fn_of(t2)["name"] in ("unwrap", "expect"))]
-            ctx.ob(f"no-panic-edge:{fnb.name}", not panics and not pan_calls, site(fnb), "no panic-capable edge" if not panics and not pan_calls else f"panic-capable: {pan_calls or 'assert'}")
-        if dfn:
-            seq = []
-            for bb2, t2 in dfn.calls():
-                f2 = fn_of(t2)
-                if f2 and f2["crate"] == "libc":
-                    seq.append((bb2, f2["name"], [a.get("def") or const_value(a) for a in t2["args"]]))
-            names = [x[1] for x in seq]
-            ok_seq = names[:2] == ["signal", "raise"] and len(seq) >= 2
-            if ok_seq:
-                ok_seq = seq[0][2] == ["libc::SIGPIPE", "libc::SIG_DFL"] and seq[1][2] == ["libc::SIGPIPE"] and dfn.dominates(seq[0][0], seq[1][0]) and seq[0][0] != seq[1][0]
-            ctx.ob("signal-then-raise", ok_seq, site(dfn), f"libc calls in order: {[(n, a) for _, n, a in seq]}")
-            ex = exit_calls(dfn)
-            ok_ex = bool(ex) and all(code == 1 for _, code in ex) and all(dfn.dominates(seq[1][0], e) for e, _ in ex) if ok_seq else False
-            ctx.ob("fallback-exit-1", ok_ex, site(dfn), "falls back to exit(1) after raise")
-        else:
-            ctx.ob("signal-then-raise", False, site(c), "diverging function not found")
-
-
-@rule("R16.3", 2, "stdout is written only through the wrapper: StdoutLock occurs only inside the wrapper type; one stdout() in main", ["C16"])
-def r16_3(ctx):
-    m, wty, used, imps = wrapper_impl(ctx.facts)
-    # position of StdoutLock inside the sink type
-    idx_lock = wty.find("StdoutLock")
-    wrappers = [i["self_adt"] for i in used]
-    inside = False
-    for w in wrappers:
-        i = wty.find(w)
-        if i >= 0 and idx_lock > i:
-            inside = True
-    ctx.ob("stdoutlock-inside-wrapper", inside and idx_lock >= 0, site(m), f"sink type {wty}")
-    n_stdout = [bb for bb, t in m.calls() if (fn_of(t) or {}).get("def") == "std::io::stdout"]
-    ctx.ob("single-stdout-in-main", len(n_stdout) == 1, site(m), f"{len(n_stdout)} std::io::stdout() call(s) in main")
-    # every use of that handle: is_terminal or lock feeding the wrapper chain
-    if n_stdout:
-        dest = m.blocks[n_stdout[0]]["term"]["dest"]["l"]
-        locks = [bb for bb, t in m.calls() if (fn_of(t) or {}).get("def") == "std::io::Stdout::lock"]
-        ctx.ob("single-lock", len(locks) == 1, site(m), f"{len(locks)} Stdout::lock call(s) in main")
-        for lb in locks:
-            ld = m.blocks[lb]["term"]["dest"]["l"]
-            # the lock must flow into the wrapper constructor chain only
-            from model import uses_of_local
-            us = uses_of_local(m, ld)
-            kinds = []
-            for ub, ui, how in us:
-                if isinstance(how, tuple) and how[0] == "callarg":
-                    kinds.append(fn_of(m.blocks[ub]["term"])["def"])
-                elif how == "drop":
-                    continue
+            ctx.ob(f"no-panic-edge:{'check' if fnb is c else fnb.name}", not panics and not pan_calls, site(fnb), "no panic-capable edge" if not panics and not pan_calls else f"panic-capable: {pan_calls or 'assert'}")
+        # on the BrokenPipe edge: signal(SIGPIPE, SIG_DFL), then raise(SIGPIPE), then (fallback) exit(1)
+        sig, rai = [], []
+        for x, bx, tx in calls:
+            f2 = fn_of(tx)
+            if x in r and f2 and f2["crate"] == "libc":
+                argv = [a.get("def") or const_value(a) for a in tx["args"]]
+                if f2["name"] == "signal" and argv == ["libc::SIGPIPE", "libc::SIG_DFL"]:
+                    sig.append(x)
+                elif f2["name"] == "raise" and argv == ["libc::SIGPIPE"]:
+                    rai.append(x)
                 else:
-                    kinds.append(str(how))
-            ok = len(kinds) == 1
-            ctx.ob("lock-flows-only-into-sink", ok, site(m, lb), f"the lock is consumed by {kinds}")
-
-
-# --------------------------------------------------------------------------- C13
-
-
-@rule("R13.1", 14, "exit-code map: constants in {0,1,2}; exit(2) only on argument errors after stderr usage; failures diverge to exit(1) after an 'xt error' line", ["C13"])
-def r13_1(ctx):
-    facts = ctx.facts
-    m, d = main_calls(facts)
-    binc = ctx.bin
-    # (a) every exit site, both crates
-    for b in ctx.lib.bodies:
-        for bb, code in exit_calls(b):
-            ctx.ob(f"lib-exit:{b.name}", False, site(b, bb), "the library terminates the process")
-        for bb, t in b.calls():
-            if (fn_of(t) or {}).get("def") in ("std::process::abort",):
-                ctx.ob(f"lib-abort:{b.name}", False, site(b, bb), "the library aborts the process")
-    all_exits = []
-    for b in binc.bodies:
-        for bb, code in exit_calls(b):
-            all_exits.append((b, bb, code))
-            ctx.ob(f"exit-code:{b.name}:{code}", code in (0, 1, 2), site(b, bb), f"process::exit({code})")
-    # (b) exit(2)
-    ctx.need(len(d["parse"]) == 1, f"expected one argument-parser call (-> Result<_, lexopt::Error>) in main, found {len(d['parse'])}")
-    pbb, pt, parse_fn = d["parse"][0]
-    sw = result_switches(m, pt["dest"]["l"])
-    ctx.need(sw, "main never inspects the argument parser's result")
-    e2 = [(b, bb) for b, bb, code in all_exits if code == 2]
-    ctx.ob("exit2:only-in-main", all(b is m for b, _ in e2) and len(e2) >= 1, site(m), f"{len(e2)} exit(2) site(s)")
-    wr = writes_in(binc, m, depth=2)
-    for sbb, errs, oks in sw:
-        for e in errs:
-            terms = terminal_blocks(m, [e])
-            all2 = bool(terms) and all(is_exit_block(m, x, 2) for x in terms)
-            ctx.ob("exit2:arg-error-exits-2", all2, site(m, sbb), "invalid command line ends in exit(2) on every path" if all2 else "an argument error can end otherwise than exit(2)")
-            r = m.reachable_from(e)
-            err_lines = [n[1] for n, st, tmpl, dts in wr if not n[0] and st == "stderr" and tmpl and tmpl.startswith("xt error")]
-            ok_msg = bool(terms) and all(m.must_pass(e, [x], err_lines) for x in terms)
-            ctx.ob("exit2:xt-error-on-stderr", ok_msg, site(m, sbb), "'xt error' line written to stderr before exit(2)")
-            usage_blocks = set()
-            stdout_blocks = set()
-            for n, st, tmpl, dts in wr:
-                root_bb = n[0][0][1] if n[0] else n[1]
-                if root_bb in r:
-                    if tmpl and "Usage:" in tmpl and st == "stderr":
-                        usage_blocks.add(root_bb)
-                    if st == "stdout":
-                        stdout_blocks.add(root_bb)
-            ok_usage = bool(terms) and all(m.must_pass(e, [x], usage_blocks) for x in terms)
-            ctx.ob("exit2:usage-on-stderr", ok_usage, site(m, sbb), "usage text goes to stderr" if ok_usage else "no usage text is written to stderr on the argument-error path")
-            gets_stdout = [bb for bb in r if (fn_of(m.blocks[bb]["term"]) or {}).get("def") == "std::io::stdout"] if True else []
-            ctx.ob("exit2:nothing-on-stdout", not stdout_blocks and not gets_stdout, site(m, sbb), "argument-error path never touches stdout" if not stdout_blocks and not gets_stdout else "argument-error path writes to stdout")
-        for o in oks:
-            r_ok = m.reachable_from(o)
-            bad = [bb for b, bb in e2 if b is m and bb in r_ok]
-            ctx.ob("exit2:unreachable-after-valid-args", not bad, site(m, sbb), "exit(2) is not reachable once the command line was accepted")
-        for bb, t in d["new"]:
-            ok = all(m.dominates(sbb, bb) for sbb, _, _ in sw)
-            ctx.ob("exit2:precedes-translation", ok, site(m, bb), "argument validation dominates translator construction")
-    # every Err produced by the argument parser comes from lexopt or a duplicate-option message
-    for dbb, idx, kind, payload in parse_fn.whole_defs(0):
-        if kind == "assign" and payload["rv"]["k"] == "aggregate":
-            if payload["rv"]["variant"] != "Err":
-                continue
-            tr = trace(parse_fn, payload["rv"]["ops"][0])
-            ok = False
-            what = str(tr.origin[0]) if tr.origin else "?"
-            if tr.origin and tr.origin[0] == "call":
-                f = fn_of(tr.origin[2])
-                ok = bool(f and f["crate"] == "lexopt")
-                what = f["def"] if f else what
-            elif tr.origin and tr.origin[0] == "const":
-                ok = "str" in tr.origin[1] and any("lexopt::Error" in c for c in tr.calls()) or "str" in tr.origin[1]
-                what = repr(tr.origin[1].get("str"))
-            ctx.ob(f"parse-err-origin:line-msg:{what}", ok, site(parse_fn, line=payload["line"]), f"Err value originates from {what}")
-        elif kind == "call":
-            f = fn_of(payload)
-            if f and f["def"] == "std::ops::FromResidual::from_residual":
-                tr = trace(parse_fn, payload["args"][0])
-                ok = False
-                what = "?"
-                if tr.origin and tr.origin[0] == "call":
-                    f2 = fn_of(tr.origin[2])
-                    ok = bool(f2 and f2["crate"] == "lexopt")
-                    what = f2["def"] if f2 else what
-                ctx.ob(f"parse-err-origin:?:{what}", ok, site(parse_fn, dbb), f"`?` propagates an error of {what}")
-    # (c) exit(0) sites: only in the argument parser, each dominated by a stdout write (version/help)
-    e0 = [(b, bb) for b, bb, code in all_exits if code == 0]
-    for b, bb in e0:
-        in_parser = b is parse_fn
-        wrs = writes_in(binc, b, depth=2)
-        out_blocks = set()
-        for n, st, tmpl, dts in wrs:
-            if st == "stdout":
-                out_blocks.add(n[0][0][1] if n[0] else n[1])
-        dom = any(b.dominates(x, bb) and x != bb for x in out_blocks)
-        ctx.ob(f"exit0:{b.name}:line-agnostic:{_opt_key(binc, b, bb)}", in_parser and dom, site(b, bb),
-               "exit(0) follows a help/version write to stdout inside the argument parser" if in_parser and dom else "exit(0) outside the help/version arms")
-    # (d) exit(1) in main: dominated by an 'xt error' stderr line; open/translate failures name the input
-    e1 = [bb for b, bb, code in all_exits if code == 1 and b is m]
-    main_wr = [(n[1], tmpl, dts) for n, st, tmpl, dts in wr if not n[0] and st == "stderr" and tmpl]
-    for bb in e1:
-        doms = [(x, tmpl, dts) for x, tmpl, dts in main_wr if m.dominates(x, bb) and tmpl.startswith("xt error")]
-        # nearest dominating message
-        ctx.ob(f"exit1:message:{_exit_key(m, d, bb)}", bool(doms), site(m, bb), f"preceded by stderr line {doms[-1][1]!r}" if doms else "exit(1) without an 'xt error' line on stderr")
-    # (e) every failure arm diverges; open/translate failures name the input
-    fallible = [("open", bb, t) for bb, t, _ in d["open"]] + [("translate:" + _variant_key(m, bb), bb, t) for bb, t in d["translate"]] + [("flush", bb, t) for bb, t in d["flush"]]
-    back_src = {u for u, v in m.back_edges()}
-    for kind, bb, t in fallible:
-        sw2 = result_switches(m, t["dest"]["l"])
-        ctx.ob(f"fail:{kind}:inspected", bool(sw2), site(m, bb), "result is matched on" if sw2 else "result is never inspected")
-        for sbb, errs, oks in sw2:
-            for e in errs:
-                terms = terminal_blocks(m, [e])
-                r = m.reachable_from(e)
-                ok = bool(terms) and all(is_exit_block(m, x, 1) for x in terms) and not (r & back_src)
-                ctx.ob(f"fail:{kind}:diverges-exit-1", ok, site(m, sbb), "failure arm reaches only exit(1)" if ok else "failure arm can continue or return (status 0 with a failed input)")
-                if kind != "flush":
-                    named = False
-                    for x, tmpl, dts in main_wr:
-                        if x in r and tmpl.startswith("xt error in ") and any("InputPath" in ty or "Path" in ty for _, ty in dts):
-                            if all(m.must_pass(e, [y], [x]) for y in terms):
-                                named = True
-                    ctx.ob(f"fail:{kind}:names-input", named, site(m, sbb), "message is 'xt error in <input>: ...'" if named else "failure message does not name the offending input")
-
-
-def _opt_key(binc, b, bb):
-    """Key an exit(0) site by the option arm it belongs to (HIR arm patterns containing its line)."""
-    line = b.blocks[bb]["term"]["line"]
-    for t in binc.tables_of(b.id):
-        for arm in t["arms"]:
-            sp = arm.get("span")
-            if sp and sp["line"] <= line <= sp["end_line"] and t["form"] == "match":
-                lits = tables.pat_literals(arm["pat"])
-                names = []
-                for l in lits:
-                    if l[0] == "ctor":
-                        inner = l[2]
-                        if inner[0] == "char":
-                            names.append("-" + chr(inner[1]))
-                        elif inner[0] == "str":
-                            names.append("--" + inner[1])
-                if names:
-                    return ",".join(sorted(names))
-    return "?"
-
-
-def _exit_key(m, d, bb):
-    # key an exit(1) site by the closest dominating interesting call
-    best = "start"
-    for name, lst in (("open", [(x[0], x[1]) for x in d["open"]]), ("translate", d["translate"]), ("flush", d["flush"]), ("new", d["new"])):
-        for cbb, t in lst:
-            if m.dominates(cbb, bb):
-                best = name
-    stdin = [b2 for b2, t in m.calls() if (fn_of(t) or {}).get("def") == "std::io::stdin"]
-    if best == "open" and not any(m.dominates(c, bb) for c, _ in d["translate"]):
-        # distinguish the open-failure arm from the stdin-twice arm by whether the open result's Err edge leads here
-        for obb, ot, _ in d["open"]:
-            for sbb, errs, oks in result_switches(m, ot["dest"]["l"]):
-                for e in errs:
-                    if bb in m.reachable_from(e):
-                        return "open-failed"
-        return "after-open"
-    return best
-
-
-@rule("R13.2", 4, "stdout who-may-call: stdout() only in main (for the sink) and the help/version printers; no print!/eprint!; the library never names stdio", ["C13"])
-def r13_2(ctx):
-    binc = ctx.bin
-    m, d = main_calls(ctx.facts)
-    ctx.need(d["parse"], "argument parser not found")
-    parse_fn = d["parse"][0][2]
-    allowed = {m.id, parse_fn.id}
-    # functions called only from the parser's exit(0) arms (help printers)
-    for bb, t in parse_fn.calls():
-        f = fn_of(t) or {}
-        if f.get("local"):
-            allowed.add(f.get("resolved") or f["def"])
-    n = 0
-    for b in binc.bodies:
-        for bb, t in b.calls():
-            f = fn_of(t) or {}
-            if f.get("def") == "std::io::stdout":
-                n += 1
-                ok = b.id in allowed
-                if ok and b is not m:
-                    # must lead to exit(0) on every path
-                    terms = terminal_blocks(b, [bb])
-                    if b is parse_fn:
-                        ok = bool(terms) and all(is_exit_block(b, x, 0) for x in terms)
-                ctx.ob(f"stdout-site:{b.name}:{_opt_key(binc, b, bb) if b is parse_fn else ''}", ok, site(b, bb),
-                       "stdout obtained for the sink / help / version" if ok else "stdout obtained outside main's sink and the help/version arms")
-            if f.get("def") in ("std::io::_print", "std::io::_eprint"):
-                ctx.ob(f"print-macro:{b.name}", False, site(b, bb), "print!/eprint! family used")
-    ctx.ob("stdout-sites-counted", n >= 1, "bin", f"{n} stdout() site(s)")
-    for b in ctx.lib.bodies:
-        for bb, t in b.calls():
-            f = fn_of(t) or {}
-            if f.get("def") in ("std::io::stdout", "std::io::stderr", "std::io::stdin", "std::io::_print", "std::io::_eprint"):
-                ctx.ob(f"lib-stdio:{b.name}", False, site(b, bb), f"library uses {f['def']}")
-    ctx.ob("lib-stdio-free", True, "lib", "no stdio access in the library (deny-list evaluated over all lib bodies)", trivial=True)
-    # help printers write only to the stream they are given / stdout, main's only stdout use is the sink (R16.3)
-    for n_, st, tmpl, dts in writes_in(binc, m, depth=0):
-        if st == "stdout":
-            ctx.ob("main-direct-stdout-write", False, site(m, n_[1]), "main writes to stdout directly, bypassing the translator")
-
-
-@rule("R13.3", 4, "terminal guard: is_terminal(stdout) && unsafe-for-terminal(target) dominates translator construction and exits 1", ["C13"])
-def r13_3(ctx):
-    m, d = main_calls(ctx.facts)
-    binc = ctx.bin
-    ctx.need(d["new"], "translator construction not found")
-    nbb = d["new"][0][0]
-    it = [(bb, t) for bb, t in m.calls() if (fn_of(t) or {}).get("name") == "is_terminal"]
-    ok_it = [x for x in it if "Stdout" in (fn_of(x[1]).get("self_ty", "") + fn_of(x[1]).get("resolved_full", ""))]
-    dom = [x for x in ok_it if m.dominates(x[0], nbb)]
-    ctx.ob("is_terminal-on-stdout-dominates", bool(dom), site(m, nbb),
-           "IsTerminal::is_terminal(stdout) precedes translator construction on every path" if dom else f"no is_terminal test on stdout dominates translator construction (found: {[fn_of(t).get('self_ty') for _, t in it]})")
-    if not dom:
-        return
-    ibb, itt = dom[0]
-    sw = m.blocks[itt["target"]]["term"]
-    ctx.need(sw["k"] == "switch", "is_terminal result is not branched on")
-    true_t = sw["otherwise"]
-    # predicate on the target format on every path from the true edge to the translator
-    preds = []
-    for bb, t in m.calls():
-        f = fn_of(t) or {}
-        if f.get("local") and len(t["args"]) == 1:
-            callee = binc.by_id.get(f.get("resolved") or f["def"])
-            if callee and callee.raw.get("ret_ty") == "bool" and "Format" in callee.local_ty(1):
-                preds.append((bb, t, callee))
-    through = [bb for bb, _, _ in preds]
-    ok = m.must_pass(true_t, [nbb], through)
-    ctx.ob("predicate-on-terminal-path", ok and bool(preds), site(m, itt["target"]), "when stdout is a terminal the target format is tested before translating" if ok and preds else "terminal path reaches the translator without testing the target format")
-    for bb, t, callee in preds:
-        tr = trace(m, t["args"][0])
-        from_to = any(s[0] == "field" and s[1] == "to" for s in tr.steps) or True
-        sw2 = m.blocks[t["target"]]["term"]
-        if sw2["k"] == "switch":
-            tt = sw2["otherwise"]
-            terms = terminal_blocks(m, [tt])
-            okx = bool(terms) and all(is_exit_block(m, x, 1) for x in terms)
-            ctx.ob("unsafe-format-on-terminal-exits-1", okx, site(m, t["target"]), "refusal exits 1" if okx else "unsafe format on a terminal does not end in exit(1)")
-        # predicate table contains Msgpack -> true
-        tabs = binc.tables_of(callee.id)
-        has = False
-        for tb in tabs:
-            for arm in tb["arms"]:
-                lits = tables.pat_literals(arm["pat"])
-                if any(l[0] == "path" and l[1].endswith("Format::Msgpack") for l in lits) and tables.body_result(arm.get("body", {})) == ("lit", True):
-                    has = True
-        ctx.ob("predicate-includes-msgpack", has, site(callee), "MessagePack is classified unsafe for terminals" if has else "MessagePack is no longer refused on terminals")
-        # evaluate the predicate abstractly on Format::Msgpack: every return must yield `true`
-        fadt = binc.adts.get("xt::Format") or ctx.lib.adts.get("Format")
-        midx = None
-        for v in (fadt or {}).get("variants", []):
-            if v["name"] == "Msgpack":
-                midx = v["idx"]
-        if midx is None:
-            raise AnchorLost("xt::Format::Msgpack variant not found in ADT facts")
-        sup = Super(binc, callee, depth=2)
-        ps = PathSens(sup)
-        reached = ps.explore([(sup.entry, {((), 1): ("var", midx)})])
-        vals = set()
-        for node, states in reached.items():
-            if not node[0] and callee.blocks[node[1]]["term"]["k"] == "return":
-                for st in states:
-                    # facts are those at block entry; apply the block's statements
-                    for lab, succ, f2 in ps.step(node, st) or []:
-                        pass
-                    f_end = dict(st)
-                    for s_ in callee.blocks[node[1]]["stmts"]:
-                        ps._stmt(f_end, (), s_)
-                    vals.add(f_end.get(((), 0)))
-        okv = vals == {("const", 1)}
-        ctx.ob("predicate-true-for-msgpack", okv, site(callee), "predicate(Format::Msgpack) evaluates to true on every path" if okv else f"predicate(Format::Msgpack) may return {sorted(map(str, vals))}")
-
-
-def _format_table(binc, fn_body):
-    """{literal: FormatVariant} from the HIR match over &str in fn_body, plus default."""
-    out = {}
-    default = None
-    found = False
-    for tb in binc.tables_of(fn_body.id):
-        if tb["form"] != "match":
-            continue
-        for arm in tb["arms"]:
-            lits = tables.pat_literals(arm["pat"])
-            res = tables.body_result(arm.get("body", {}))
-            val = None
-            r = res
-            while r[0] == "wrapped":
-                val = r
-                r = r[2]
-            fmtv = tables.short(r[1]) if r[0] == "path" else None
-            wrapper = tables.short(res[1]) if res[0] == "wrapped" else (tables.short(res[1]) if res[0] == "path" else None)
-            for l in lits:
-                lit = l
-                if lit[0] == "ctor":
-                    lit = lit[2]
-                if lit[0] == "str":
-                    found = True
-                    out[lit[1]] = fmtv if wrapper in ("Ok", "Some") else None
-                elif lit[0] == "wild":
-                    default = wrapper
-    return out if found else None, default
-
-
-@rule("R13.4", 8, "format-name table of -f/-t equals the manual (doc/xt.1) and the long help; both options use it", ["C13"])
-def r13_4(ctx):
-    binc = ctx.bin
-    man = tables.parse_manual()
-    m, d = main_calls(ctx.facts)
-    parse_fn = d["parse"][0][2]
-    # the parser function handed to parse_with
-    users = []
-    for bb, t in parse_fn.calls():
-        f = fn_of(t) or {}
-        if f.get("name") == "parse_with":
-            for a in t["args"]:
-                if a.get("k") == "fn":
-                    users.append((bb, a["def"]))
-    fns = sorted({u for _, u in users})
-    ctx.ob("both-options-use-one-parser", len(users) >= 2 and len(fns) == 1, site(parse_fn), f"parse_with callees: {[u for _, u in users]}")
-    ctx.need(fns, "no format-name parser handed to lexopt parse_with")
-    fb = binc.by_id.get(fns[0])
-    ctx.need(fb, f"format-name parser {fns[0]} not in bin")
-    table, default = _format_table(binc, fb)
-    ctx.need(table is not None, "format-name table not found in HIR")
-    want = {}
-    for name, info in man["formats"].items():
-        want[name] = name
-        for al in info["aliases"]:
-            want[al] = name
-    vmap = {"json": "Json", "msgpack": "Msgpack", "toml": "Toml", "yaml": "Yaml"}
-    for lit in sorted(set(want) | set(table)):
-        exp = vmap.get(want.get(lit)) if lit in want else None
-        got = table.get(lit)
-        ctx.ob(f"name:{lit}", exp == got, site(fb), f"manual: {lit!r} -> {exp}; code: {got}")
-    ctx.ob("unknown-names-rejected", default == "Err", site(fb), f"default arm yields {default}")
-    # long help FORMATS block
-    helptext = ""
-    for b in binc.bodies:
-        for n, st, tmpl, dts in writes_in(binc, b, depth=0):
-            if tmpl and "FORMATS" in tmpl:
-                helptext = tmpl
-    ctx.need(helptext, "long help text not found")
-    blk = helptext.split("FORMATS", 1)[1].split("CAVEATS")[0]
-    for name, info in man["formats"].items():
-        line = f"{name}, {', '.join(info['aliases'])}" if info["aliases"] else name
-        ctx.ob(f"longhelp:{name}", line in blk, "long help", f"long help lists {line!r}")
-
-
-@rule("R13.5", 2, "duplicate -f / -t are rejected before the accumulator is overwritten", ["C13"])
-def r13_5(ctx):
-    m, d = main_calls(ctx.facts)
-    parse_fn = d["parse"][0][2]
-    # accumulators: Option<Format> locals assigned Some(..) inside the loop
-    n = 0
-    for bi, blk in enumerate(parse_fn.blocks):
-        if bi not in parse_fn.reach():
-            continue
-        for s in blk["stmts"]:
-            if s["k"] != "assign" or s["p"]["pr"]:
-                continue
-            acc = s["p"]["l"]
-            if "Option<xt::Format>" not in parse_fn.local_ty(acc) or not parse_fn.local_name(acc):
-                continue
-            rv = s["rv"]
-            if rv["k"] != "use" or not is_place(rv["op"]):
-                continue
-            tr = trace(parse_fn, rv["op"])
-            if not (tr.origin and tr.origin[0] == "agg" and tr.origin[1]["rv"].get("variant") == "Some"):
-                continue
-            if not parse_fn.on_cycle(bi):
-                continue
-            n += 1
-            name = parse_fn.local_name(acc)
-            # dominated by the false edge of is_some(&acc) whose true edge returns Err
-            guards = []
-            for bb, t in parse_fn.calls():
-                f = fn_of(t) or {}
-                if f.get("name") in ("is_some", "is_none") and t["args"]:
-                    tr2 = trace(parse_fn, t["args"][0])
-                    if is_place(t["args"][0]) and _refers_to(parse_fn, t["args"][0], acc):
-                        guards.append((bb, t, f["name"]))
-            ok = False
-            for bb, t, nm in guards:
-                sw = parse_fn.blocks[t["target"]]["term"]
-                if sw["k"] != "switch":
-                    continue
-                zero = [x for v, x in sw["targets"] if v == 0]
-                if not zero:
-                    continue
-                if nm == "is_some":
-                    free_edge = (t["target"], 0, zero[0])
-                    taken = sw["otherwise"]
-                else:
-                    free_edge = (t["target"], "otherwise", sw["otherwise"])
-                    taken = zero[0]
-                dom = parse_fn.edge_dominates(free_edge[0], free_edge[1], free_edge[2], bi)
-                # the 'already set' edge returns Err without reaching the assignment
-                r = parse_fn.reachable_from(taken)
-                errs = bi not in r and not (r & {u for u, v in parse_fn.back_edges()})
-                if dom and errs:
-                    ok = True
-            ctx.ob(f"dup-guard:{name}", ok, site(parse_fn, bi), f"`{name} = Some(..)` is guarded by an is_some() test that returns an error" if ok else f"`{name}` can be overwritten by a repeated option")
-    if n == 0:
-        ctx.ob("accumulators", False, site(parse_fn), "no Option<Format> accumulators found")
-
-
-def _refers_to(body, op, local):
-    tr = trace(body, op)
-    # walk manually: op -> ref of local
-    cur = op
-    for _ in range(6):
-        if not is_place(cur):
-            return False
-        l = cur["p"]["l"]
-        if l == local:
-            return True
-        ds = body.whole_defs(l)
-        if len(ds) != 1 or ds[0][2] != "assign":
-            return False
-        rv = ds[0][3]["rv"]
-        if rv["k"] == "ref":
-            return rv["p"]["l"] == local
-        if rv["k"] == "use":
-            cur = rv["op"]
-            continue
-        return False
-    return False
-
-
-# --------------------------------------------------------------------------- C14
-
-
-OPTION_FALLBACK = ("std::option::Option::<T>::or_else", "std::option::Option::<T>::or")
-
-
-def _extension_fn(binc):
-    """The extension lookup: a local fn -> Option<xt::Format> with a string-literal table."""
-    cands = []
-    for b in binc.bodies:
-        if b.raw.get("ret_ty") == "std::option::Option<xt::Format>" and b.raw["def_kind"] in ("Fn", "AssocFn"):
-            table, default = _format_table(binc, b)
-            if table:
-                cands.append((b, table, default))
-    return cands
-
-
-def _calls_fn(binc, body, target_id, depth=2):
-    for n, b, t in Super(binc, body, depth=depth).calls():
-        f = fn_of(t) or {}
-        if (f.get("resolved") or f.get("def")) == target_id or f.get("def") == target_id:
-            return True
-    return False
-
-
-@rule("R14.1", 4, "source format = -f, else extension, else detection: dataflow into every translate_* call; detection only on None", ["C14"])
-def r14_1(ctx):
-    m, d = main_calls(ctx.facts)
-    binc = ctx.bin
-    ext = _extension_fn(binc)
-    ctx.need(len(ext) == 1, f"expected one extension lookup (fn -> Option<Format> with a literal table), found {len(ext)}")
-    ext_fn = ext[0][0]
-    pbb, pt, parse_fn = d["parse"][0]
-    for bb, t in d["translate"]:
-        key = f"{fn_of(t)['name']}@{_variant_key(m, bb)}"
-        tr = trace(m, t["args"][-1])
-        ok = False
-        detail = f"`from` argument originates from {tr.origin[0] if tr.origin else '?'}"
-        if tr.origin and tr.origin[0] == "call":
-            oc = tr.origin[2]
-            f = fn_of(oc) or {}
-            if f.get("def") in OPTION_FALLBACK and all(s[0] == "use" for s in tr.steps):
-                # primary: a field of the parsed arguments
-                p = trace(m, oc["args"][0])
-                prim_ok = bool(p.origin and p.origin[0] == "call" and p.origin[2] is pt and p.has("field"))
-                pfield = [s[1] for s in p.steps if s[0] == "field"]
-                # secondary: extension lookup (closure or direct value)
-                sec_ok = False
-                if f["def"].endswith("or_else"):
-                    for c in f.get("closures", []):
-                        cb = binc.by_id.get(c)
-                        if cb and _calls_fn(binc, cb, ext_fn.id, depth=1):
-                            r_ok, _ = _returns_call(cb, lambda tt: ((fn_of(tt) or {}).get("resolved") or (fn_of(tt) or {}).get("def")) == ext_fn.id)
-                            sec_ok = r_ok
-                else:
-                    s2 = trace(m, oc["args"][1])
-                    sec_ok = bool(s2.origin and s2.origin[0] == "call" and ((fn_of(s2.origin[2]) or {}).get("resolved") or (fn_of(s2.origin[2]) or {}).get("def")) == ext_fn.id)
-                # the primary field must be the one assigned from -f: the parser's `f` arm
-                ok = prim_ok and sec_ok
-                detail = f"{f['def'].rsplit('::', 1)[-1]}(primary = parsed field {pfield}, secondary = extension lookup: {sec_ok})"
-                if prim_ok and not sec_ok:
-                    detail = "the fallback operand is not the extension lookup"
-                if not prim_ok:
-                    detail = "the primary operand is not the parsed -f option (precedence swapped or -f ignored)"
-            else:
-                detail = f"`from` is produced by {f.get('def')} (not a recognised option-fallback idiom: or_else / or)"
-        elif tr.origin and tr.origin[0] == "const":
-            detail = "`from` is a constant: -f and the extension are ignored"
-        ctx.ob(f"{key}:from-is-f-then-extension", ok, site(m, bb), detail)
-    # the primary field is really the -f accumulator: Cli aggregate in the parser takes `from` from the local set in the 'f' arm
-    agg = [p for _, _, k, p in parse_fn.whole_defs(0) if k == "assign" and p["rv"]["k"] == "aggregate" and p["rv"].get("variant") == "Ok"]
-    okf = False
-    det = "Ok(Cli{..}) aggregate not found"
-    for a in agg:
-        tr = trace(parse_fn, a["rv"]["ops"][0])
-        if tr.origin and tr.origin[0] == "agg":
-            cli = tr.origin[1]["rv"]
-            fields = cli.get("fields", [])
-            for fname, op in zip(fields, cli["ops"]):
-                if fname == "from":
-                    t2 = trace(parse_fn, op)
-                    # origin: the multi-def accumulator local named like the field assigned in the Short('f') arm
-                    if t2.origin and t2.origin[0] == "multi":
-                        acc = t2.origin[1]
-                        arm = _arm_of_assignment(binc, parse_fn, acc)
-                        okf = arm == "-f"
-                        det = f"Cli.from is the accumulator assigned in the {arm} arm"
-    ctx.ob("parsed-from-is-dash-f", okf, site(parse_fn), det)
-    # library side: detection runs only when `from` is None
-    det_fn = common.detect_function(ctx.facts)
-    lib = ctx.lib
-    n = 0
-    for b in lib.bodies:
-        for bb, t in b.calls():
-            f = fn_of(t) or {}
-            if (f.get("resolved") or f.get("def")) == det_fn.id:
-                n += 1
-                # dominated by the None edge of a switch on an Option<Format> argument
-                ok = False
-                for sb in b.reach():
-                    tt = b.blocks[sb]["term"]
-                    if tt["k"] != "switch":
-                        continue
-                    for s in b.blocks[sb]["stmts"]:
-                        if s["k"] == "assign" and s["rv"]["k"] == "discr" and "Option<Format>" in s["rv"]["p"]["ty"] and 1 <= s["rv"]["p"]["l"] <= b.nargs:
-                            none_t = [x for v, x in tt["targets"] if v == 0]
-                            if none_t and b.edge_dominates(sb, 0, none_t[0], bb):
-                                ok = True
-                ctx.ob(f"detect-only-on-none:{b.name}", ok, site(b, bb), "detection is reached only through the None edge of the `from` argument" if ok else "detection can run although a source format was given")
-    ctx.ob("detect-call-sites", n >= 1, site(det_fn), f"{n} call site(s) of the detection driver")
-
-
-def _arm_of_assignment(binc, parse_fn, acc):
-    """Option name of the HIR arm containing the `acc = Some(..)` assignment."""
-    for bi, blk in enumerate(parse_fn.blocks):
-        for s in blk["stmts"]:
-            if s["k"] == "assign" and not s["p"]["pr"] and s["p"]["l"] == acc and s["rv"]["k"] == "use" and is_place(s["rv"]["op"]):
-                tr = trace(parse_fn, s["rv"]["op"])
-                if tr.origin and tr.origin[0] == "agg" and tr.origin[1]["rv"].get("variant") == "Some":
-                    # find arm by line
-                    fake_bb = bi
-                    line = s["line"]
-                    for t in binc.tables_of(parse_fn.id):
-                        if t["form"] != "match":
-                            continue
-                        for arm in t["arms"]:
-                            sp = arm.get("span")
-                            if sp and sp["line"] <= line <= sp["end_line"]:
-                                lits = tables.pat_literals(arm["pat"])
-                                for l in lits:
-                                    if l[0] == "ctor" and l[2][0] == "char":
-                                        return "-" + chr(l[2][1])
-    return "?"
-
-
-@rule("R14.2", 8, "extension table equals the manual and long help; literals lower-case and the extension is lower-cased; stdin has no extension", ["C14"])
-def r14_2(ctx):
-    binc = ctx.bin
-    ext = _extension_fn(binc)
-    ctx.need(len(ext) == 1, "extension lookup not found")
-    eb, table, default = ext[0]
-    man = tables.parse_manual()
-    vmap = {"json": "Json", "msgpack": "Msgpack", "toml": "Toml", "yaml": "Yaml"}
-    want = {}
-    for name, info in man["formats"].items():
-        for e in info["extensions"]:
-            want[e] = vmap[name]
-    for lit in sorted(set(want) | set(table)):
-        ctx.ob(f"ext:{lit}", want.get(lit) == table.get(lit), site(eb), f"manual: .{lit} -> {want.get(lit)}; code: {table.get(lit)}")
-        ctx.ob(f"ext-lowercase:{lit}", lit == lit.lower(), site(eb), "pattern literal is lower-case")
-    ctx.ob("unknown-extension-none", default == "None", site(eb), f"default arm yields {default}")
-    # long help
-    helptext = ""
-    for b in binc.bodies:
-        for n, st, tmpl, dts in writes_in(binc, b, depth=0):
-            if tmpl and "FORMATS" in tmpl:
-                helptext = tmpl
-    if helptext:
-        blk = helptext.split("FORMATS", 1)[1].split("CAVEATS")[0]
-        for name, info in man["formats"].items():
-            for e in info["extensions"]:
-                ctx.ob(f"longhelp-ext:{e}", f".{e}" in blk, "long help", f"long help mentions .{e}")
-    # lower-casing on the path from Path::extension to every literal comparison
-    cmps = []
-    for bb, t in eb.calls():
-        f = fn_of(t) or {}
-        if f.get("trait") == "std::cmp::PartialEq" and len(t["args"]) == 2 and t["args"][1].get("k") == "const" and "str" in t["args"][1]:
-            cmps.append((bb, t))
-    ctx.ob("literal-comparisons-found", len(cmps) >= len(table), site(eb), f"{len(cmps)} literal comparison(s) in MIR for {len(table)} table row(s)")
-    extra = ("std::option::Option::<T>::map", "std::option::Option::<T>::and_then")
-    for bb, t in cmps:
-        lit = t["args"][1]["str"]
-        tr = trace(eb, t["args"][0], passthrough_extra=extra)
-        lowered = False
-        from_ext = bool(tr.origin and tr.origin[0] == "call" and (fn_of(tr.origin[2]) or {}).get("def") == "std::path::Path::extension")
-        for step in tr.steps:
-            if step[0] == "call" and step[1].startswith("std::option::Option::<T>::map"):
-                cbb = step[2]
-                cf = fn_of(eb.blocks[cbb]["term"])
-                for c in cf.get("closures", []):
-                    cb = binc.by_id.get(c)
-                    if cb and any((fn_of(tt) or {}).get("name") in ("to_ascii_lowercase", "to_lowercase") for _, tt in cb.calls()):
-                        lowered = True
-        ctx.ob(f"lowercased-before-compare:{lit}", lowered and from_ext, site(eb, bb),
-               "Path::extension() is lower-cased before comparison" if lowered and from_ext else "extension compared without lower-casing (case-sensitive match)")
-    # stdin: no extension
-    okn = False
-    for tb in binc.tables_of(eb.id):
-        for arm in tb["arms"]:
-            lits = tables.pat_literals(arm["pat"])
-            if any(l[0] == "path" and l[1].endswith("::Stdin") for l in lits):
-                okn = tables.body_result(arm.get("body", {})) == ("path", "std::prelude::v1::None") or tables.short(str(tables.body_result(arm.get("body", {}))[1])) == "None"
-    ctx.ob("stdin-has-no-extension", okn, site(eb), "the stdin arm yields None")
-
-
-@rule("R14.3", 5, "standard input is read at most once: the only stdin() site is dominated by a set-once bool guard whose set edge exits 1", ["C14"])
-def r14_3(ctx):
-    binc = ctx.bin
-    m, d = main_calls(ctx.facts)
-    sites = []
-    for b in binc.bodies:
-        for bb, t in b.calls():
-            if (fn_of(t) or {}).get("def") == "std::io::stdin":
-                sites.append((b, bb))
-    ctx.ob("single-stdin-site-in-main", len(sites) == 1 and sites[0][0] is m, site(m), f"{len(sites)} std::io::stdin() site(s)")
-    if len(sites) != 1 or sites[0][0] is not m:
-        return
-    sbb = sites[0][1]
-    # path-sensitive view: the guard and the read sit behind two tests of the same enum value
-    sup = Super(binc, m, depth=0)
-    ps = PathSens(sup)
-    N = lambda x: ((), x)  # noqa: E731
-    # candidate guards: switches on a copy of a named bool local
-    found = False
-    for gb in sorted(m.reach()):
-        t = m.blocks[gb]["term"]
-        if t["k"] != "switch" or t.get("discr_ty") != "bool":
-            continue
-        tr = trace(m, t["discr"])
-        if not (tr.origin and tr.origin[0] == "multi"):
-            continue
-        g = tr.origin[1]
-        if not m.local_name(g):
-            continue
-        zero = [x for v, x in t["targets"] if v == 0]
-        if not zero:
-            continue
-        if not ps.edge_dominates(N(gb), 0, N(zero[0]), N(sbb)):
-            continue
-        found = True
-        gname = m.local_name(g)
-        ctx.ob("guard-dominates-stdin", True, site(m, gb), f"stdin() is reached only through the clear edge of `{gname}`")
-        terms = terminal_blocks(m, [t["otherwise"]])
-        ok = bool(terms) and all(is_exit_block(m, x, 1) for x in terms)
-        ctx.ob("second-use-exits-1", ok, site(m, gb), "second use of stdin ends in exit(1)" if ok else "second use of stdin is not refused")
-        setters = []
-        clears = []
-        for bi, blk in enumerate(m.blocks):
-            for s in blk["stmts"]:
-                if s["k"] == "assign" and not s["p"]["pr"] and s["p"]["l"] == g and s["rv"]["k"] == "use" and s["rv"]["op"].get("k") == "const":
-                    (setters if s["rv"]["op"].get("v") is True else clears).append(bi)
-        armed = N(sbb) not in ps.reach_from_edge(N(gb), 0, N(zero[0]), removed_nodes=[N(x) for x in setters])
-        ctx.ob("flag-set-before-read", armed, site(m, sbb), f"`{gname} = true` precedes stdin() on every path" if armed else f"`{gname}` is not set before reading stdin")
-        cl_ok = all(not m.on_cycle(c) for c in clears) and len(clears) >= 1
-        ctx.ob("flag-cleared-only-before-loop", cl_ok, site(m), f"`{gname} = false` only outside the input loop" if cl_ok else f"`{gname}` is reset inside the input loop")
-    if not found:
-        ctx.ob("guard-dominates-stdin", False, site(m, sbb), "no set-once bool guard dominates the stdin() site")
-    # "-" -> stdin; no file arguments -> one stdin input
-    dash = False
-    for b in binc.bodies:
-        if b.raw.get("impl_trait") == "std::convert::From" and "InputPath" in b.raw.get("impl_self_ty", ""):
-            for bb, t in b.calls():
-                f = fn_of(t) or {}
-                if f.get("trait", "").startswith("std::cmp::PartialEq"):
-                    consts = [trace(b, a) for a in t["args"]]
-                    has_dash = any(x.origin and ((x.origin[0] == "const" and x.origin[1].get("str") == "-") or (x.origin[0] == "call" and any(a.get("str") == "-" or (trace(b, a).origin or [None, {}])[1].get("str") == "-" for a in x.origin[2]["args"] if True))) for x in consts)
-                    sw = b.blocks[t["target"]]["term"]
-                    if has_dash and sw["k"] == "switch":
-                        tb = sw["otherwise"]
-                        agg = [s for s in b.blocks[tb]["stmts"] if s["k"] == "assign" and s["rv"]["k"] == "aggregate" and s["rv"].get("variant") == "Stdin"]
-                        dash = bool(agg)
-    ctx.ob("dash-means-stdin", dash, "bin", "path \"-\" maps to the stdin variant")
-    empty = False
-    for bb, t in m.calls():
-        f = fn_of(t) or {}
-        if f.get("name") == "is_empty" and "PathBuf" in f.get("full", ""):
-            sw = m.blocks[t["target"]]["term"]
-            if sw["k"] == "switch":
-                tb = sw["otherwise"]
-                agg = [s for s in m.blocks[tb]["stmts"] if s["k"] == "assign" and s["rv"]["k"] == "aggregate" and s["rv"].get("variant") == "Stdin"]
-                empty = bool(agg)
-    ctx.ob("no-files-means-stdin", empty, site(m), "an empty path list yields one stdin input")
-
-
-@rule("R14.4", 6, "mmap failure falls back to the reader; open errors are returned; each input variant feeds the matching translate_* call unchanged", ["C14"])
-def r14_4(ctx):
-    binc = ctx.bin
-    m, d = main_calls(ctx.facts)
-    ctx.need(d["open"], "open function not found")
-    obb, ot, ofn = d["open"][0]
-    maps = [(bb, t) for bb, t in ofn.calls() if (fn_of(t) or {}).get("def", "").startswith("memmap2::Mmap::map")]
-    ctx.ob("mmap-attempted", len(maps) == 1, site(ofn), f"{len(maps)} Mmap::map call(s)")
-    for bb, t in maps:
-        sw = ofn.blocks[t["target"]]["term"]
-        if sw["k"] != "switch":
-            ctx.ob("mmap-result-branched", False, site(ofn, bb), "Mmap::map result is not branched on")
-            continue
-        err_t = sw["otherwise"] if any(v == 0 for v, _ in sw["targets"]) else [x for v, x in sw["targets"] if v == 1][0]
-        r = ofn.reachable_from(err_t)
-        bad = []
-        for x in r:
-            for s in ofn.blocks[x]["stmts"]:
-                if s["k"] == "assign" and s["p"]["l"] == 0 and s["rv"]["k"] == "aggregate" and s["rv"].get("variant") == "Err":
-                    bad.append(x)
-            tt = ofn.blocks[x]["term"]
-            if tt["k"] == "call" and tt["dest"]["l"] == 0 and (fn_of(tt) or {}).get("name") == "from_residual":
-                bad.append(x)
-        filev = any(s["k"] == "assign" and s["rv"]["k"] == "aggregate" and s["rv"].get("variant") == "File" for x in r for s in ofn.blocks[x]["stmts"])
-        ctx.ob("mmap-failure-falls-back", not bad and filev, site(ofn, t["target"]), "mmap failure yields the file-reader variant" if not bad and filev else "mmap failure becomes an error (FIFOs / process substitution would fail)")
-    opens = [(bb, t) for bb, t in ofn.calls() if (fn_of(t) or {}).get("def", "").startswith("std::fs::File::open")]
-    for bb, t in opens:
-        sw = result_switches(ofn, t["dest"]["l"])
-        ok = False
-        for sbb, errs, oks in sw:
-            for e in errs:
-                tt = ofn.blocks[e]["term"]
-                r = ofn.reachable_from(e)
-                ok = any(ofn.blocks[x]["term"]["k"] == "call" and (fn_of(ofn.blocks[x]["term"]) or {}).get("name") == "from_residual" and ofn.blocks[x]["term"]["dest"]["l"] == 0 for x in r)
-        ctx.ob("open-error-returned", ok, site(ofn, bb), "File::open failure is returned to main")
-    # variant -> translate call
-    adt = binc.adts.get("Input") or {}
-    for bb, t in d["translate"]:
-        f = fn_of(t)
-        vk = _variant_key(m, bb)
-        key = f"{f['name']}@{vk}"
-        a = t["args"][1]
-        tr = trace(m, a)
-        if f["name"] == "translate_slice":
-            ok = any(s[0] == "downcast" and s[1] == "Mmap" for s in tr.steps) and all(s[0] in ("use", "ref", "deref", "field", "downcast") or (s[0] == "call" and "Deref" in s[1]) for s in tr.steps)
-            ctx.ob(f"{key}:map-passed-as-is", ok, site(m, bb), "the mapping is passed as a slice through Deref only" if ok else f"slice argument is transformed: {tr.kinds()}")
-        elif "Stdin" in vk:
-            ok = bool(tr.origin and tr.origin[0] == "call" and (fn_of(tr.origin[2]) or {}).get("def") == "std::io::Stdin::lock")
-            ctx.ob(f"{key}:reads-stdin", ok, site(m, bb), "reader is the locked standard input")
-        else:
-            ok = any(s[0] == "downcast" and s[1] == "File" for s in tr.steps) and all(s[0] in ("use", "field", "downcast") for s in tr.steps)
-            ctx.ob(f"{key}:file-passed-as-is", ok, site(m, bb), "the opened file is the reader" if ok else f"reader argument is transformed: {tr.kinds()}")
-        # sink: all translate calls use the same translator local
-        rtr = trace(m, t["args"][0])
-        ctx.ob(f"{key}:same-translator", bool(rtr.origin and rtr.origin[0] == "call" and d["new"] and rtr.origin[2] is d["new"][0][1]), site(m, bb), "uses the translator constructed before the loop")
+                    ctx.ob(f"libc-call:{f2['name']}", False, sup.site(x), f"unexpected libc call {f2['name']}{argv} on the BrokenPipe edge")
+        ok_seq = bool(sig) and bool(rai)
+        if ok_seq:
+            # raise is not reachable without signal; no end is reachable without raise
+            r_nosig = reach_edge(edge, removed=sig)
+            r_norai = reach_edge(edge, removed=rai)
+            ok_seq = not any(x in r_nosig for x in rai) and not [x for x in r_norai if not sup.edges(x) and sup.body_of(x).blocks[x[1]]["term"]["k"] != "unreachable"]
+        ctx.ob("signal-then-raise", ok_seq, sup.site(sn), "signal(SIGPIPE, SIG_DFL) precedes raise(SIGPIPE) on every BrokenPipe path" if ok_seq else f"signal/raise sequence not established (signal sites: {len(sig)}, raise sites: {len(rai)})")
+        exs = []
+        for x, bx, tx in calls:
+            if x in r and (fn_of(tx) or {}).get("def") == "std::process::exit":
+                exs.append((x, const_value(tx["args"][0])))
+        ok_ex = bool(exs) and all(code == 1 for _, code in exs) and set(ends) <= {x for x, _ in exs}
+        ctx.ob("fallback-exit-1", ok_ex, sup.site(sn), "falls back to exit(1) after raise" if ok_ex else f"BrokenPipe path ends: {[sup.site(x) for x in ends]}")
